@@ -393,3 +393,6 @@ Section Exec.
        calls := calls0;
        log := [] |}.
 End Exec.
+
+Arguments HSeries {V} s.
+Arguments HVal {V} v.
